@@ -26,6 +26,7 @@
 -/
 import WW.Proofs.Distributor
 import WW.Proofs.Collector
+import WW.Proofs.LairEpoch
 namespace WW.C09
 open WW WW.Distributor
 
@@ -265,6 +266,23 @@ theorem not_before_bonding_time (cfg : Cfg) (g d : Nat) (hg : 1 ≤ g) (ops : Li
   rw [hst]
   have : fb * cfg.duration ≤ (e.id - 1) * cfg.duration := Nat.mul_le_mul_right _ (by omega)
   omega
+
+/-- **not_before_bonding** (end to end) — the same with the hypothesis on the lair discharged from the
+    lair's own `calculate_epoch` (model `WW.Lair.calcEpoch`, tied to `whale_lair/src/helpers.rs` by the
+    lair engine): when the lair is configured with the distributor's genesis and epoch duration and
+    answers `first_bonded_epoch_id = fb` for an address that bonded at `bondTime`, every epoch a
+    never-claimed address is paid for started strictly after `bondTime`. -/
+theorem not_before_bonding_time_lair (cfg : Cfg) (lc : Lair.Cfg) (g d : Nat) (hg : 1 ≤ g) (ops : List Op)
+    (u fb bondTime : Nat)
+    (hgen : lc.genesis = cfg.genesis) (hdur : lc.epochDur = cfg.duration)
+    (hfb : Lair.calcEpoch lc bondTime = .ok fb)
+    (ans : Nat → LairAns) (s' : St) (paid : Ledger)
+    (hnever : lookup u (reach cfg (St.init g d) ops).last = none)
+    (h : claim (reach cfg (St.init g d) ops) u (some fb) ans = .ok (s', paid)) :
+    ∀ e, Changed (reach cfg (St.init g d) ops) s' e → bondTime < e.start := by
+  have hl := Lair.calcEpoch_lt hfb
+  rw [hgen, hdur] at hl
+  exact not_before_bonding_time cfg g d hg ops u fb bondTime hl ans s' paid hnever h
 
 /-- grace periods: `UpdateConfig` accepts exactly 1 … 30 (documented maximum, regenerated from the
     sources on every run) and never a decrease -/
